@@ -5,6 +5,8 @@ import (
 	"io"
 	"sync"
 	"time"
+
+	xhttp2 "golang.org/x/net/http2"
 )
 
 // ConnPlan describes the behaviour of one client connection in lifecycle scenarios (C10/C11/C16/C17).
@@ -23,7 +25,33 @@ type ConnPlan struct {
 	// LastStream (HTTP/2 only): how the last stream of the connection ends - "" (normal), "client-rst"
 	// (request cancelled by RST_STREAM), "early-response" (POST /early/.. answered before its body ended:
 	// the server resets the stream with NO_ERROR), "malformed" (header block the server answers with RST_STREAM)
+	// "self-dependent" (HEADERS whose priority field names its own stream: RST_STREAM PROTOCOL_ERROR)
 	LastStream string `json:"last_stream,omitempty"`
+	// H2Extra (HTTP/2 only): frames sent right after every request's HEADERS: "wu-conn", "wu-stream"
+	// (WINDOW_UPDATE on the connection / on the request's stream), "priority" (PRIORITY for an idle stream),
+	// "ping", "settings"
+	H2Extra []string `json:"h2_extra,omitempty"`
+	// FirstRecordVersion (serve): when non-zero, the legacy version field in the header of the first TLS
+	// record (the ClientHello's) is overwritten with it. crypto/tls ignores that field; fingerproxy's
+	// ClientHello capture accepts 0x0300..0x0304 only.
+	FirstRecordVersion uint16 `json:"first_record_version,omitempty"`
+}
+
+// recVersionConn rewrites the version field of the first TLS record written through it.
+type recVersionConn struct {
+	*Conn
+	v    uint16
+	done bool
+}
+
+func (c *recVersionConn) Write(b []byte) (int, error) {
+	if !c.done && len(b) >= 5 && b[0] == 0x16 {
+		c.done = true
+		nb := append([]byte{}, b...)
+		nb[1], nb[2] = byte(c.v>>8), byte(c.v)
+		return c.Conn.Write(nb)
+	}
+	return c.Conn.Write(b)
 }
 
 // ClientRun is the observable state of a running plan.
@@ -122,7 +150,13 @@ func (r *ClientRun) run(tag string) {
 		if r.Plan.ALPN != "" {
 			alpn = []string{r.Plan.ALPN}
 		}
-		c, err := Handshake(r.Raw, ClientOpts{StdALPN: alpn})
+		var c *TLSClient
+		var err error
+		if r.Plan.FirstRecordVersion != 0 {
+			c, err = HandshakeVia(r.Raw, &recVersionConn{Conn: r.Raw, v: r.Plan.FirstRecordVersion}, ClientOpts{StdALPN: alpn})
+		} else {
+			c, err = Handshake(r.Raw, ClientOpts{StdALPN: alpn})
+		}
 		r.mu.Lock()
 		r.HandshakeEr = err
 		r.HandshakeOK = err == nil
@@ -154,6 +188,20 @@ func (r *ClientRun) run(tag string) {
 				if err := cc.H2.SendH2(sid, ReqSpec{Method: "GET", Path: fmt.Sprintf("/%s/%d", tag, i), Authority: "example.com"}, nil); err != nil {
 					ex.Err = err.Error()
 				} else {
+					for _, x := range r.Plan.H2Extra {
+						switch x {
+						case "wu-conn":
+							cc.H2.Fr.WriteWindowUpdate(0, 1000+sid)
+						case "wu-stream":
+							cc.H2.Fr.WriteWindowUpdate(sid, 2000+sid)
+						case "priority":
+							cc.H2.Fr.WritePriority(sid+1000, xhttp2.PriorityParam{StreamDep: 0, Weight: uint8(sid)})
+						case "ping":
+							cc.H2.Fr.WritePing(false, [8]byte{byte(sid)})
+						case "settings":
+							cc.H2.Fr.WriteSettings(xhttp2.Setting{ID: xhttp2.SettingInitialWindowSize, Val: 65535 + sid})
+						}
+					}
 					ex = cc.H2.AwaitResponse(sid, r.finish)
 				}
 			}
@@ -173,6 +221,9 @@ func (r *ClientRun) run(tag string) {
 				cc.H2.Fr.WriteRSTStream(sid, 8)
 			case "early-response":
 				cc.H2.WriteRequestHeaders(sid, [][2]string{{":method", "POST"}, {":scheme", "https"}, {":authority", "example.com"}, {":path", "/early/" + tag}, {"content-length", "1000"}}, false, nil, nil)
+				cc.H2.AwaitResponse(sid, r.finish)
+			case "self-dependent":
+				cc.H2.WriteRequestHeaders(sid, [][2]string{{":method", "GET"}, {":scheme", "https"}, {":authority", "example.com"}, {":path", "/" + tag + "/selfdep"}}, true, &Prio{Dep: sid, Weight: 10}, nil)
 				cc.H2.AwaitResponse(sid, r.finish)
 			case "malformed":
 				cc.H2.WriteRequestHeaders(sid, [][2]string{{":method", "GET"}, {":scheme", "https"}, {":authority", "example.com"}, {":path", "/" + tag + "/bad"}, {"Upper-Case", "x"}}, true, nil, nil)
